@@ -322,18 +322,25 @@ def all_harnesses():
     return list(_ALL)
 
 
+# quick tier overrides decided by measurement (see DESIGN section 8): harnesses that do not finish
+# within the quick budget run in the thorough tier only
+THOROUGH_ONLY = [r"^ser::", r"^cv::", r"^p::", r"^d10::", r"^e2e::", r"^d9::d_v9_two_fields",
+                 r"^w::w_real_5_stray", r"^fixed::error_common", r"count_\d+$"]
+C01_QUICK = {"k::k_unsigned", "k::k_vec", "d9::d_v9_zero_size_template_1", "d9::d_v9_three_records", "s9::s_v9_template_1f_trunc",
+             "s9::s_v9_data_dispatch", "s10::s_ipfix_data_dispatch", "w::w_real_9cut", "w::wr_ipfix_entry_22", "w::wr_v9_entry_c1_s3",
+             "fixed::v5_reexport_1", "s9::s_v9_truncated_d_max", "w::w_shape_7_5cut"}
+
+import re as _re
+for _h in _ALL:
+    if any(_re.search(p_, _h.name) for p_ in THOROUGH_ONLY):
+        _h.tier = "thorough"
+
+
 def harnesses_for(pid, tier, seed=0):
     out = []
     for h in _ALL:
         if pid in h.props and (tier == "thorough" or h.tier == "quick"):
+            if pid == "C01" and tier == "quick" and not (h.name in C01_QUICK and h.feature == "on"):
+                continue
             out.append(h)
     return out
-reg(["X"], H("x::x1", unwind=2, loops=_WL, timeout=600, mem_gb=16))
-reg(["X"], H("x::x2", unwind=2, loops=_WL, timeout=600, mem_gb=16))
-reg(["X"], H("x::x3", unwind=2, loops=_WL, timeout=600, mem_gb=16, bytewise=64))
-reg(["X"], H("x::x4", unwind=2, loops=_WL, timeout=600, mem_gb=16))
-reg(["X"], H("x::x5", unwind=2, loops=_WL, timeout=600, mem_gb=16, bytewise=64))
-reg(["X"], H("x::x6", unwind=2, loops=_WL, timeout=600, mem_gb=16))
-reg(["X"], H("x::x7", unwind=2, loops=_WL, timeout=600, mem_gb=16))
-reg(["X"], H("w::w_real_5_9", unwind=2, loops=_WL, timeout=900, mem_gb=16))
-reg(["X"], H("w::w_real_10_7_stray", unwind=2, loops=_WL, timeout=900, mem_gb=16))
